@@ -101,6 +101,8 @@ fn state_bits(n: usize, fs: &[u16], xor_sem: bool) -> u32 {
 }
 
 pub const MAX_STATE_BITS: u32 = 21;
+/// cap on the cover states the second oracle may generate before giving up (no verdict from it)
+pub const COVER_CAP: usize = 3_000_000;
 
 /// Exhaustive optimum by dynamic programming over the terms. `xor_sem`: outputs are XORs of
 /// terms (ESOP), else ORs of implicants. The state is the tuple of covered on-set elements
@@ -191,6 +193,78 @@ fn two_level_opt(n: usize, fs: &[u16], terms: &[Term], per_use: i64, xor_sem: bo
     } else {
         Some((c - per_use * nonzero, explored))
     }
+}
+
+/// Second exhaustive oracle for OR semantics (Sop / Sop+Soes), for instances whose on-sets are
+/// too large for the dense table: uniform-cost search over cover states (one 16-bit covered
+/// set per output), always extending the cover at the FIRST uncovered (output, assignment)
+/// pair — every form is generated in exactly one order — by every implicant term containing
+/// it, used in every subset of the outputs it is an implicant of (outputs where it would
+/// cover nothing new are left out: such a use only costs). The first time the full cover is
+/// taken from the queue its cost is the optimum (all move costs are positive). Returns None
+/// when more than `cap` states were generated.
+fn cover_search(n: usize, fs: &[u16], terms: &[Term], per_use: i64, cap: usize) -> Option<(i64, u64)> {
+    if fs.len() > 4 || per_use <= 0 {
+        return None;
+    }
+    let full = full_mask(n);
+    let k = fs.len();
+    let pack = |c: &[u16]| -> u64 { c.iter().enumerate().fold(0u64, |a, (j, x)| a | ((*x as u64) << (16 * j))) };
+    let target: Vec<u16> = fs.to_vec();
+    let usable: Vec<Vec<usize>> = terms.iter().map(|t| (0..k).filter(|j| fs[*j] != 0 && (t.tv & !fs[*j] & full) == 0 && t.tv != 0).collect()).collect();
+    let mut best: std::collections::HashMap<u64, i64> = std::collections::HashMap::new();
+    // bucket queue by cost
+    let mut buckets: Vec<Vec<Vec<u16>>> = vec![vec![vec![0u16; k]]];
+    best.insert(0, 0);
+    let mut explored = 0u64;
+    let mut cost = 0usize;
+    while cost < buckets.len() {
+        while let Some(st) = buckets[cost].pop() {
+            if best.get(&pack(&st)).copied() != Some(cost as i64) {
+                continue; // a cheaper way to this cover was found later
+            }
+            if st == target {
+                let nonzero = fs.iter().filter(|f| **f != 0).count() as i64;
+                return Some((cost as i64 - per_use * nonzero, explored));
+            }
+            // first uncovered (output, assignment)
+            let (j, m) = (0..k).find_map(|j| (0..nbits(n)).find(|m| (fs[j] >> m) & 1 != 0 && (st[j] >> m) & 1 == 0).map(|m| (j, m))).unwrap();
+            for (ti, t) in terms.iter().enumerate() {
+                if (t.tv >> m) & 1 == 0 || !usable[ti].contains(&j) {
+                    continue;
+                }
+                let others: Vec<usize> = usable[ti].iter().copied().filter(|o| *o != j && (t.tv & !st[*o]) != 0).collect();
+                for sub in 0u32..(1u32 << others.len()) {
+                    let mut ns = st.clone();
+                    ns[j] |= t.tv;
+                    let mut uses = 1i64;
+                    for (b, o) in others.iter().enumerate() {
+                        if (sub >> b) & 1 != 0 {
+                            ns[*o] |= t.tv;
+                            uses += 1;
+                        }
+                    }
+                    let nc = cost as i64 + t.gate + per_use * uses;
+                    explored += 1;
+                    let key = pack(&ns);
+                    let e = best.entry(key).or_insert(i64::MAX);
+                    if nc < *e {
+                        *e = nc;
+                        let nc = nc as usize;
+                        if buckets.len() <= nc {
+                            buckets.resize(nc + 1, Vec::new());
+                        }
+                        buckets[nc].push(ns);
+                    }
+                }
+            }
+            if best.len() > cap {
+                return None;
+            }
+        }
+        cost += 1;
+    }
+    None
 }
 
 fn lut_of(n: usize, f: u16) -> Lut {
@@ -407,6 +481,22 @@ fn check_instance(which: &str, n: usize, fs: &[u16], and_c: i32, xor_c: i32, or_
         optimum = Some(opt);
         if cost != opt {
             return fail(format!("total cost = the minimum over all such two-level forms = {} (exhaustive search over all cubes)", opt), format!("{} for {}", cost, sol.show()));
+        }
+        // the two exhaustive oracles must agree wherever both apply (every 4th instance)
+        if !xor_sem && (fs.iter().map(|f| *f as u64).sum::<u64>() + and_c as u64) % 4 == 0 {
+            if let Some((opt2, _)) = cover_search(n, fs, &terms, cs, COVER_CAP) {
+                if opt2 != opt {
+                    return Err(("harness".into(), format!("the two exhaustive oracles disagree: dense table {} vs cover search {} on {:x?}", opt, opt2, fs)));
+                }
+            }
+        }
+    } else if !xor_sem {
+        if let Some((opt, ex)) = cover_search(n, fs, &terms, cs, COVER_CAP) {
+            explored = ex;
+            optimum = Some(opt);
+            if cost != opt {
+                return fail(format!("total cost = the minimum over all such two-level forms = {} (exhaustive uniform-cost search over covers by all implicant terms)", opt), format!("{} for {}", cost, sol.show()));
+            }
         }
     }
     if meta {
@@ -631,12 +721,41 @@ fn instances(tier: Tier) -> Vec<Inst> {
             lists.push((4, vec![dense[i], dense[(i + d) % nd], dense[(i + 2 * d + 1) % nd]], "dense-triples-n4", true, true));
         }
     }
+    // lists that repeat a function: each copy pays its own per-output gates (every cost triple)
+    for a in 0..256u32 {
+        lists.push((3, vec![a as u16, a as u16], "repeated-n3", false, false));
+        if a % 8 == 6 {
+            let g = (a as u16).rotate_left(3) & 0xff ^ 0x80;
+            lists.push((3, vec![a as u16, g, a as u16], "repeated-n3", false, false));
+        }
+    }
+    // n = 4, three outputs (x_a ^ x_b) | minterm: a minterm all three outputs can share, lying
+    // inside a larger cube of every pairwise intersection (multi-output primes of all three)
+    {
+        let pairs: Vec<(usize, usize)> = (0..4usize).flat_map(|a| ((a + 1)..4).map(move |b| (a, b))).collect();
+        let xor_tv = |a: usize, b: usize| -> u16 { (0..16u16).filter(|m| ((m >> a) ^ (m >> b)) & 1 != 0).fold(0u16, |t, m| t | (1 << m)) };
+        let mut k = 0usize;
+        for c in 0..16u16 {
+            for i in 0..pairs.len() {
+                for j in (i + 1)..pairs.len() {
+                    for l in (j + 1)..pairs.len() {
+                        k += 1;
+                        if !(thorough || k % 16 == 5 || (c == 15 && (i, j, l) == (3, 4, 5))) {
+                            continue;
+                        }
+                        let fs: Vec<u16> = [pairs[i], pairs[j], pairs[l]].iter().map(|(a, b)| xor_tv(*a, *b) | (1 << c)).collect();
+                        lists.push((4, fs, "xor-or-minterm-triples-n4", false, true));
+                    }
+                }
+            }
+        }
+    }
     let quick_triples = vec![(1, 1, 1), (1, 2, 3), (3, 1, 2)];
     let heavy_triples = vec![(1, 1, 1), (2, 3, 3), (3, 1, 2), (2, 2, 1)];
     let all_triples: Vec<(i32, i32, i32)> = (1..=3).flat_map(|a| (1..=3).flat_map(move |x| (1..=3).map(move |o| (a, x, o)))).collect();
     let mut out = Vec::new();
     for (n, fs, family, meta, heavy) in lists {
-        let triples = if heavy { &heavy_triples } else if thorough { &all_triples } else { &quick_triples };
+        let triples = if family == "repeated-n3" { &all_triples } else if heavy { &heavy_triples } else if thorough { &all_triples } else { &quick_triples };
         let mut seen_sop = std::collections::BTreeSet::new();
         let mut seen_esop = std::collections::BTreeSet::new();
         for t in triples {
@@ -646,7 +765,7 @@ fn instances(tier: Tier) -> Vec<Inst> {
             out.push(Inst { which: "sopes", n, fs: fs.clone(), costs: *t, meta, family });
             // the ESOP model of dense multi-output 4-variable lists takes 15-80 s per solve:
             // only a handful of pairs, in the thorough tier
-            let esop_too_slow = family.starts_with("dense") && !(thorough && fs.len() == 2 && fs[0] % 7 == 3);
+            let esop_too_slow = (family.starts_with("dense") && !(thorough && fs.len() == 2 && fs[0] % 7 == 3)) || family == "xor-or-minterm-triples-n4";
             if !esop_too_slow && seen_esop.insert((t.0, t.1)) {
                 out.push(Inst { which: "esop", n, fs: fs.clone(), costs: (t.0, t.1, 1), meta, family });
             }
@@ -693,6 +812,8 @@ fn worker(k: usize, nw: usize, tier: Tier, seed: u64, out: &str) -> i32 {
                 "cube-split-triples" => "(c & x, c & !x, c) for every cube c with a free variable x, n = 3 and 4, 3 outputs; exhaustive optimum",
                 "literal-or-cube-rotations-n3" => "(literal | 2-literal cube) and its two variable rotations, 3 outputs; exhaustive optimum",
                 "literal-or-cube-pairs-n4" => "(literal | 3-literal cube) and a variable-permuted copy, n=4, 2 outputs; exhaustive optimum",
+                "repeated-n3" => "every 3-variable function listed twice ([f, f]; some [f, g, f]), all 27 cost triples; exhaustive optimum",
+                "xor-or-minterm-triples-n4" => "three outputs (x_a ^ x_b) | minterm over 4 variables (quick: every 16th; thorough: all 320); exhaustive optimum by the cover search",
                 "npn-singles-n4" => "NPN representatives of 4 variables, single output; exhaustive optimum (ESOP: 2^16 states), metamorphic on every 4th",
                 _ => "dense 2-/3-output lists of 4 variables: beyond the exhaustive search; metamorphic oracle (equivalent instances) only",
             };
